@@ -208,6 +208,7 @@ fn shrink_common_inner(j: &J) -> Vec<J> {
     if ls.holes != 0.0 {
         let mut l = ls.clone();
         l.holes = 0.0;
+        l.nan_holes = false;
         out.push(scen(&ps, &l, &cfg));
     }
     if ls.cliff.is_some() {
@@ -360,6 +361,7 @@ pub fn c06_verdict(run: &E1Run, tr: &Trace, kt_start_zero: bool, out: &mut RunOu
             }
             match (e.prop_score, e.parent_score) {
                 (None, _) if e.accepted => Err("it would have been accepted although it has no score".to_string()),
+                (Some(p), _) if !p.is_finite() && e.accepted => Err(format!("it would have been accepted although its score is {}", p)),
                 (Some(p), Some(c)) if p > c && !e.accepted => Err(format!("it would have been rejected although it is strictly better ({:e} > {:e})", p, c)),
                 (Some(p), Some(c)) if p < c && e.accepted && zero_kt => Err(format!("it would have been accepted at zero temperature although it is strictly worse ({:e} < {:e})", p, c)),
                 _ => Ok(()),
@@ -372,8 +374,10 @@ pub fn c06_verdict(run: &E1Run, tr: &Trace, kt_start_zero: bool, out: &mut RunOu
                 format!("the returned state can only be explained by treating the proposal of score() call {} differently from what the acceptance rule allows: {}", k.min(run.obs.len().saturating_sub(1)), why),
             ));
         }
-        if let Some(None) = run.ret_score {
-            out.violate(Violation::new("returned-a-discarded-trial", run.obs.len() as u64, "the returned state has no score (an invalid proposal was handed back)".to_string()));
+        match run.ret_score {
+            Some(None) => out.violate(Violation::new("returned-a-discarded-trial", run.obs.len() as u64, "the returned state has no score (an invalid proposal was handed back)".to_string())),
+            Some(Some(x)) if !x.is_finite() => out.violate(Violation::new("returned-a-discarded-trial", run.obs.len() as u64, format!("the returned state's score is {} (a trial that can never be accepted was handed back)", x))),
+            _ => {}
         }
     }
     if let (Some(a), Some(b)) = (&run.ret, &run.ret_basis) {
@@ -409,7 +413,10 @@ impl Check for C06 {
     fn generate(&self, rng: &mut Rng, tier: Tier, _i: u64) -> J {
         let mut ps = gen_params(rng, &[(1, 2), (2, 3), (3, 3), (6, 3), (64, 1)]);
         ps.outside = *rng.pick(&[0.0, 0.0, 0.0, 0.3, 1.0]);
-        let ls = gen_land_general(rng, true);
+        let mut ls = gen_land_general(rng, true);
+        if ls.holes > 0.0 && rng.chance(0.4) {
+            ls.nan_holes = true;
+        }
         let mut cfg = gen_cfg(rng, tier, false);
         cap_for_n(&ps, &mut cfg);
         let pre = gen_prelude(rng);
